@@ -32,7 +32,7 @@ Proof.
   - destruct (is_running s); cbn [negb]; [|now left];
     destruct (win s) as [|r w]; [now left|]; destruct (alookup (r_mid r) (smap s)) as [o|];
     [ destruct (r_kind r); destruct (getop s o) as [c|]; try destruct (o_rx c); cbn [negb]; brk; msimp; intros H; fin1 H
-    | destruct (alookup (r_mid r) (rmap s)); msimp; intros H; fin1 H ].
+    | destruct (alookup (r_mid r) (rmap s)); brk; msimp; intros H; fin1 H ].
   - destruct (is_running s); [msimp; intros []|now left].
   - now left.
   - destruct (getop s o) as [c|]; [|now left]; destruct (waiting c); cbn [negb]; [|now left];
@@ -193,7 +193,8 @@ Proof.
            [exact E|exact Ec|cbn [ops set updop]; rewrite ?upd_upd; reflexivity|reflexivity|intros o' H; discriminate H|reflexivity
            |intros _; unfold to; cbn [snd o_items set close_chan]; now rewrite app_nil_r]) ].
     + destruct (alookup (r_mid r) (rmap s)) as [o|] eqn:Er.
-      * pose proof (alookup_In _ _ _ Er) as Hin. destruct (HR _ _ Hin) as (c & Ec & Ek). rewrite Ec.
+      * match goal with |- context [if ?b then _ else _] => destruct b end; [apply (exact_resp_same s _ r); [exact E|reflexivity|reflexivity]|].
+        pose proof (alookup_In _ _ _ Er) as Hin. destruct (HR _ _ Hin) as (c & Ec & Ek). rewrite Ec.
         destruct (ik_fill (Some r) c) as [I1 I2].
         apply (exact_resp_upd s _ r (if waiting c then Some o else None) o c (fill_reply (Some r)));
           [exact E|exact Ec|reflexivity|reflexivity| |exact I2|].
